@@ -72,6 +72,8 @@ def gen(rng, i, tier):
         case["itol"] = rng.choice([1e-3, 1e-6, 1e-9, 1e-11])
     elif case["mode"] != "benign" and r < 0.5:
         case["vtol"] = rng.choice([1e-3, 1e-9, 1e-11])
+    if rng.random() < 0.3:
+        case["gaps"] = rng.choice([1, 2, 3, 5])
     return case
 
 
@@ -169,10 +171,30 @@ def run(ctx, case):
     tolv = case["tol"]
     vtol, itol = case.get("vtol", tolv), case.get("itol", tolv)
     tol = M.Tol(vtol, itol)
-    st, sysobj = H.try_build(spec)
+    ns = loader.load()
+    gaps = case.get("gaps", 0)
+    if gaps:
+        # the same structure reached through an edit history that leaves `gaps` unfilled node indices
+        # (scratch components added early and deleted at the end): the solver's vectors are indexed by node index
+        first = spec["comps"][0]
+        sysobj = ns.System(spec.get("name", "sys"), S.make_comp(ns, first), group=first.get("group", ""), rail=first.get("rail", ""))
+        IL = ns.KINDS["ILoad"]
+        for g_ in range(gaps):
+            sysobj.add_comp(first["name"], comp=IL("~gap%d" % g_, ii=0.001))
+        st = "ok"
+        try:
+            for c in spec["comps"][1:]:
+                S.add_one(sysobj, spec, c, ns)
+            S.apply_phase_conf(sysobj, spec)
+            for g_ in range(gaps):
+                sysobj.del_comp("~gap%d" % g_)
+        except Exception as e:  # noqa: BLE001
+            st, sysobj = "raise", e
+        ctx.count("built", "with %d index gaps" % gaps)
+    else:
+        st, sysobj = H.try_build(spec)
     if st != "ok":
         raise RuntimeError("generator produced a spec the public API rejects: %s" % H.exc_sig(sysobj))
-    ns = loader.load()
     _probe["solves"] = []
     st, df = H.solve(sysobj, vtol=vtol, itol=itol, maxiter=case["maxiter"], ta=case["ta"])
     solves = list(_probe["solves"])
